@@ -131,6 +131,8 @@ LINTS = [
      "the node that a loop clones is itself changed inside the loop"),
     ("optional-truthiness", lambda repo, modules: lints.truthiness_of_optional(repo, modules), BEHAVIOURAL,
      "a parsed field for which None and empty/zero differ (init, params, args) is tested for truthiness"),
+    ("shallow-clone-shares-list", lints.shallow_clone_shares_list, BEHAVIOURAL,
+     "a list of the original that passes append to is shared by every clone made with copy.copy"),
     ("copy-shares-state", lints.copy_shares_state, BEHAVIOURAL,
      "a method that returns a new object made from self returns self, or shares self's dictionaries with it"),
     ("shared-container", lints.shared_mutable_containers, {"C07"},
@@ -197,6 +199,8 @@ def run_general(repo, run, R, pid, modules=MODULES):
                 props = set(domain)      # the lint is about this property's subject wherever it fires
             if name == "lost-reset" and isinstance(node, ast.Assign):
                 props = PERITER_PROPS.get(("%s.%s" % (mn, q), node.targets[0].id), props)
+            if name == "shallow-clone-shares-list":
+                props = props | {"C08"}    # clones are the per-signature variants C08 counts
             if name in ("undefined-name", "none-then-attribute"):
                 props = props | {"C17"}    # an internal failure on whatever input reaches the statement
             if name == "container-option":
